@@ -8,6 +8,7 @@ MODULES = [
     ('src/volatile_memory.rs', 'verif_kani_c06', 'c06.rs'),
     ('src/bitmap/backend/atomic_bitmap.rs', 'verif_kani_c08', 'c08.rs'),
     ('src/io.rs', 'verif_kani_io', 'io.rs'),
+    ('src/mmap/unix.rs', 'verif_kani_region', 'region.rs'),
 ]
 
 _ADDR_CTX = [r'macro_rules!\s+impl_address_ops', r'\(\$T:ident, \$V:ty\)\s*=>', r'impl Address for \$T']
@@ -46,6 +47,10 @@ CONTRACTS = [
 
 # O3: FFI redirection (Kani can neither run nor stub foreign functions)
 FFI = {
+    'src/mmap/unix.rs': [(r'\blibc::mmap\(', 'crate::verif_ffi::mmap('), (r'\blibc::munmap\(', 'crate::verif_ffi::munmap('),
+                         (r'\blibc::sysconf\(', 'crate::verif_ffi::sysconf('),
+                         (r'io::Error::last_os_error\(\)', 'crate::verif_ffi::last_os_error()')],
+    'src/bitmap/backend/atomic_bitmap.rs': [(r'\blibc::sysconf\(', 'crate::verif_ffi::sysconf(')],
     'src/io.rs': [(r'\blibc::read\(', 'crate::verif_ffi::read('), (r'\blibc::write\(', 'crate::verif_ffi::write('),
                   (r'std::io::Error::last_os_error\(\)', 'crate::verif_ffi::last_os_error()'),
                   # O3b: io::Error::new(kind, "msg") boxes a String (38 GB / 10 min in CBMC, Kani cannot stub
@@ -61,6 +66,34 @@ APPEND = {
 #[cfg(kani)]
 #[allow(dead_code, static_mut_refs)]
 pub mod verif_ffi {
+    pub static mut MMAP_CALLS: usize = 0;
+    pub static mut MMAP_OK: usize = 0;
+    pub static mut MMAP_ARGS: (usize, usize, i32, i32, i32, i64) = (0, 0, 0, 0, 0, 0);
+    pub static mut MMAP_RET: usize = 0;
+    pub static mut MUNMAP_CALLS: usize = 0;
+    pub static mut MUNMAP_ARGS: (usize, usize) = (0, 0);
+    pub static mut PAGE_SIZE: usize = 4096;
+    /// mmap(2): MAP_FAILED or an arbitrary address
+    pub unsafe fn mmap(addr: *mut core::ffi::c_void, len: usize, prot: i32, flags: i32, fd: i32, off: i64) -> *mut core::ffi::c_void {
+        MMAP_CALLS += 1;
+        MMAP_ARGS = (addr as usize, len, prot, flags, fd, off);
+        let r: usize = kani::any();
+        if r != usize::MAX { MMAP_OK += 1; }
+        MMAP_RET = r;
+        r as *mut core::ffi::c_void
+    }
+    pub unsafe fn munmap(addr: *mut core::ffi::c_void, len: usize) -> i32 {
+        MUNMAP_CALLS += 1;
+        MUNMAP_ARGS = (addr as usize, len);
+        0
+    }
+    /// sysconf(_SC_PAGESIZE): some power-of-two page size
+    pub unsafe fn sysconf(_name: i32) -> i64 {
+        let k: u8 = kani::any();
+        let ps: usize = if k % 3 == 0 { 4096 } else if k % 3 == 1 { 16384 } else { 65536 };
+        PAGE_SIZE = ps;
+        ps as i64
+    }
     pub static mut READ_CALLS: usize = 0;
     pub static mut WRITE_CALLS: usize = 0;
     pub static mut LAST: (i32, usize, usize) = (0, 0, 0);
